@@ -18,8 +18,11 @@ from harness.props import c05
 RULE = ("cases: random rooted trees with 2..7 nodes incl. chains rooted at an end (root with a single child), "
         "spiders and stars, all root positions of small chains/stars; random (un)normalised states with generic "
         "full-rank bonds for reversibility and redundant bonds otherwise; Hermitian TTNOs; 2-3 consecutive steps; "
-        "EXPM mode; plus saturated two-node cases. non-trivial = distinct (shape, variant, seed) with >= 3 nodes "
-        "or a saturated two-node case")
+        "EXPM mode; plus saturated two-node cases; plus the input-space audit families shared with C05 (non-diagonal "
+        "TTNOs, pre-gauged caller states, default configuration / builder function / Chebyshev / sparse exponential "
+        "modes, real / integer / single-precision tensors, magnitudes 1e-8..1e8 with tolerances relative to the data, "
+        "physical dimension 1, prefix identifiers, read-only tensors, reset / setter histories). "
+        "non-trivial = distinct (shape, variant, seed) with >= 3 nodes or a saturated two-node case")
 PARTIAL = ["conservation/reversibility are proved for abstract local flows (palindromic_reversible, runFlow_neg_reverse, "
            "runFlow_merge, runFlow_conserves, runFlow_monotone) and for one local update with an isometric or "
            "zero-padded partially isometric embedding (local_update_conserves_norm/energy/norm_padded, "
@@ -35,6 +38,21 @@ PARTIAL = ["conservation/reversibility are proved for abstract local flows (pali
 ASSUMPTIONS = ["dense reference: eigh-based propagator for the two-node exactness clause"]
 
 TOL = 1e-8
+
+# Families that are switched off because the UNCHANGED /repo fails them.  `temporary-identifier-collision` is an
+# observation outside the property's domain (the identifiers `link_<a>_with_<b>` are reserved for the temporary link
+# nodes of one-site TDVP; see notes/C06.md and DESIGN.md section 7), so it stays off.
+PENDING_FINDINGS = {
+    "builder-default-config": c05.PENDING_FINDINGS.get("builder-default-config"),      # switched off in c05.make_algo
+    "temporary-identifier-collision": {
+        "inputs": "a tree with an edge a-b and a further node whose identifier is 'link_a_with_b' (the identifier "
+                  "OneSiteTDVP.create_link_id gives the temporary link node), first- or second-order one-site TDVP",
+        "message": "step 0 did not complete: ValueError: shape-mismatch for sum (the temporary link node overwrites / "
+                   "is confused with the user's node of the same identifier)",
+    },
+}
+if PENDING_FINDINGS["builder-default-config"] is None:
+    del PENDING_FINDINGS["builder-default-config"]
 
 
 def gen_cases(ctx):
@@ -73,6 +91,29 @@ def gen_cases(ctx):
             cases.append({"kind": "saturated", "variant": v, "seed": rng.randrange(10 ** 9),
                           "d": rng.choice([2, 3]), "rootfirst": rng.random() < 0.5,
                           "retime": rng.choice([None, None, 2, 3])})
+    # input-space audit (notes/C06.md): the families of C05 with the C06 oracle (all Hamiltonians Hermitian) ...
+    arng = ctx.subrng("audit6")
+    for c in c05.audit_cases(ctx, ("tdvp1", "tdvp2")):
+        if c["fam"] == "one-node":
+            continue                    # the property speaks about trees with at least two nodes
+        # (reversibility needs generic full-rank tensors and one fixed step size: not for integer tensors / histories)
+        c.update(kind="step", herm=True,
+                 fullrank=c["fam"] != "history" and c.get("dtype") != "int" and not c.get("zero")
+                 and arng.random() < 0.5)
+        cases.append(c)
+    # ... and the saturated two-node clause in the same regimes
+    for v in ("tdvp1", "tdvp2"):
+        for extra in [{"sscale": 1e-8}, {"sscale": 1e8}, {"hscale": 1e-6}, {"hscale": 1e3}, {"dtype": "real"},
+                      {"dtype": "int"}, {"cfg": "none"}, {"cfg": "builder"}, {"cfg": "chebyshev"}, {"cfg": "sparse"},
+                      {"steps": 3}, {"steps": 2, "reset_after": 1}, {"names": "prefix"}, {"pregauge": "KEEP"},
+                      {"pregauge": "REDUCED"}, {"readonly": True}, {"ttno": "generic"}]:
+            cases.append(dict({"kind": "saturated", "variant": v, "seed": arng.randrange(10 ** 9),
+                               "d": arng.choice([2, 3]), "rootfirst": arng.random() < 0.5,
+                               "retime": arng.choice([None, None, 3]), "fam": "saturated-audit"}, **extra))
+    if "temporary-identifier-collision" not in PENDING_FINDINGS:
+        for v in ("tdvp1", "tdvp2"):
+            cases.append({"kind": "step", "variant": v, "par": [-1, 0, 0, 1], "seed": arng.randrange(10 ** 9),
+                          "steps": 2, "fullrank": False, "herm": True, "fam": "reserved-names", "names": "reserved"})
     return cases
 
 
@@ -132,34 +173,67 @@ def _compare(ctx, case, o, mo):
 
 
 def _problem(case):
+    """Legacy keys: par, seed, fullrank, bonds, pregauge (without gauge_at), rich.  Audit keys (shared with
+    harness/props/c05.py): names, phys, ttno, dtype, sscale, hscale, pregauge + gauge_at, readonly."""
     rng = random.Random(case["seed"])
     nprng = np.random.default_rng(case["seed"])
     par = case["par"]
     n = len(par)
+    real = case.get("dtype") in ("real", "int", "single")
+    realH = case.get("dtype") in ("int", "single")      # dtype "real": real state, complex Hamiltonian
+    kw = {}
+    if case.get("names"):
+        kw["names"] = {i: c05.NAME_SETS[case["names"]][i] for i in range(n)}
+    if real:
+        kw["complex_"] = False
     if case.get("fullrank"):
-        ttns, info = gen.random_fullrank_ttns(rng, nprng, par, phys=(2, 3) if n <= 5 else (2,), bonds=(2, 2, 3))
+        ttns, info = gen.random_fullrank_ttns(rng, nprng, par, phys=tuple(case.get("phys") or ((2, 3) if n <= 5 else (2,))),
+                                              bonds=(2, 2, 3), **kw)
     else:
-        ttns, info = gen.random_ttns(rng, nprng, par, phys=(2, 2, 3) if n <= 5 else (2,),
-                                     bonds=tuple(case.get("bonds") or (1, 2, 3, 4)))
+        ttns, info = gen.random_ttns(rng, nprng, par, phys=tuple(case.get("phys") or ((2, 2, 3) if n <= 5 else (2,))),
+                                     bonds=tuple(case.get("bonds") or (1, 2, 3, 4)), **kw)
     names = info["names"]
-    if case.get("pregauge"):
+    if case.get("pregauge") and not case.get("gauge_at"):
         # the caller hands over a state that is already canonical somewhere (KEEP keeps padded bonds)
         from pytreenet.util.tensor_splitting import SplitMode
         ttns.canonical_form(rng.choice(sorted(ttns.nodes)), mode=getattr(SplitMode, case["pregauge"]))
     phys = {i: info["open"][i][0] for i in range(n)}
-    terms = []
-    rich = case.get("rich")
-    for _ in range(6 if rich else rng.randint(1, 3)):
-        sites = rng.sample(range(n), rng.randint(1, min(3 if rich else 2, n)))
-        terms.append({s: gen.rand_hermitian(nprng, phys[s]) for s in sites})
-    H, Hm = algos.ttno_from_terms(par, phys, names, terms, rng, nprng)
-    negterms = []
-    for t in terms:
-        t2 = dict(t)
-        k = next(iter(t2))
-        t2[k] = -t2[k]
-        negterms.append(t2)
-    Hneg, Hnegm = algos.ttno_from_terms(par, phys, names, negterms, rng, nprng)
+    hs = case.get("hscale") or 1.0
+    if case.get("ttno") == "generic":
+        import copy
+        H, Hm = c05.generic_ttno(rng, nprng, par, phys, names, True, real=realH, scale=hs)
+        Hneg = copy.deepcopy(H)
+        Hneg.replace_tensor(Hneg.root_id, -Hneg.tensors[Hneg.root_id])
+    else:
+        terms = []
+        rich = case.get("rich")
+        for _ in range(6 if rich else rng.randint(1, 3)):
+            sites = rng.sample(range(n), rng.randint(1, min(3 if rich else 2, n)))
+            terms.append({s: gen.rand_hermitian(nprng, phys[s]) for s in sites})
+        if realH or hs != 1.0:
+            for t in terms:
+                k0 = next(iter(t))
+                for k in t:
+                    t[k] = (np.real(t[k]) if realH else t[k]) * (hs if k == k0 else 1.0)
+        H, Hm = algos.ttno_from_terms(par, phys, names, terms, rng, nprng)
+        negterms = []
+        for t in terms:
+            t2 = dict(t)
+            k = next(iter(t2))
+            t2[k] = -t2[k]
+            negterms.append(t2)
+        Hneg, Hnegm = algos.ttno_from_terms(par, phys, names, negterms, rng, nprng)
+        if realH:
+            for net in (H, Hneg):
+                for nid in list(net.nodes):
+                    net.replace_tensor(nid, np.real(net.tensors[nid]))
+    if any(case.get(k) for k in ("dtype", "sscale", "readonly", "zero")) or \
+            (case.get("pregauge") and case.get("gauge_at")):
+        Hm, tolf = c05.specialise(case, rng, ttns, H, Hm)
+        if case.get("dtype") in ("int", "single", "csingle"):
+            for nid in list(Hneg.nodes):
+                Hneg.replace_tensor(nid, c05._cast(Hneg.tensors[nid], case["dtype"]))
+        info["tolf"] = tolf
     return rng, nprng, ttns, info, H, Hm, Hneg
 
 
@@ -183,6 +257,9 @@ def _shape_map(ttn):
 def canonical_problems(ttn, centre, tol=1e-8):
     """All non-centre nodes are (partial) isometries toward the centre; centre norm = full norm."""
     probs = []
+    empty = [nid for nid in ttn.nodes if 0 in ttn.tensors[nid].shape]
+    if empty:
+        return [f"node {empty[0]} has a leg of dimension 0 (shape {ttn.tensors[empty[0]].shape})"]
     for nid in ttn.nodes:
         if nid == centre:
             continue
@@ -192,7 +269,7 @@ def canonical_problems(ttn, centre, tol=1e-8):
             probs.append(f"node {nid} is not a (partial) isometry toward the centre {centre}")
     v = dense.ttns_vector(ttn, sorted(ttn.nodes))
     cn = np.linalg.norm(ttn.tensors[centre])
-    if abs(cn - np.linalg.norm(v)) > tol * max(1.0, np.linalg.norm(v)):
+    if abs(cn - np.linalg.norm(v)) > tol * np.linalg.norm(v):
         probs.append(f"norm of the centre tensor {cn:.12g} != norm of the state {np.linalg.norm(v):.12g}")
     return probs
 
@@ -211,15 +288,25 @@ def _run_one(ctx, case, rec):
     ctx.tally("variant", variant)
     ctx.tally("nodes", n)
     ctx.tally("root_single_child", root_single_child)
+    ctx.tally("audit_family", case.get("fam", "-"))
+    for key in ("ttno", "cfg", "dtype"):
+        if case.get(key):
+            ctx.tally("audit_" + key, case[key])
     ctx.sample(case, 3)
     # unnormalised on purpose in half of the cases
-    dt = 0.02
+    dt = 0.02 / (case.get("hscale") or 1.0)       # |H| dt stays O(1): magnitude of H and step size are varied together
+    tf = info.get("tolf", 1.0)              # element-type factor of all tolerances (single precision: 5e3)
+    tol = TOL * tf
     struct0, shapes0 = dense.structure(ttns), None
     try:
-        algo = algos.make_algo(variant, ttns, H, dt, dt, [])
+        algo = c05.make_algo(case, variant, ttns, H, dt, dt)
     except Exception as e:              # noqa: BLE001
         ctx.oracle_fail(case, f"{variant}: construction raised {type(e).__name__}: {str(e)[:200]}")
         return None
+    if algo is None:
+        ctx.tally("pending_finding_skipped", case.get("cfg"))
+        return None
+    rec.tol = 1e-8 * tf
     shapes0 = _shape_map(algo.state)      # shapes after the initial KEEP-mode orthogonalisation = input shapes
     shapes_in = _shape_map(ttns)
     probs = []
@@ -235,12 +322,22 @@ def _run_one(ctx, case, rec):
     for step in range(case["steps"]):
         rec.events, rec.problems, rec.contracts = [], [], []
         try:
+            if case.get("reset_after") == step:
+                rec.algo = None
+                algo.reset_to_initial_state()
+                rec.algo = algo
+                v_prev = dense.ttns_vector(algo.state, order)
+                e_prev = algos.expval_dense(v_prev, Hm)
+            if case.get("retime_after") == step:
+                algo.set_num_time_steps_constant_final_time(case["retime_n"])
+            if case.get("setn_after") == step:
+                algo.set_num_time_steps(case["setn"])
             algo.run_one_time_step()
         except Exception as e:          # noqa: BLE001
             rec.algo = None
             ctx.oracle_fail(case, f"{variant}: step {step} did not complete: {type(e).__name__}: {str(e)[:200]}")
             return None
-        ctx.count((variant, tuple(case["par"]), case["seed"], step), nontrivial=n >= 3)
+        ctx.count((variant, tuple(case["par"]), case["seed"], step, case.get("fam")), nontrivial=n >= 3)
         st = algo.state
         if dense.structure(st) != struct0:
             probs.append(f"step {step}: identifiers / parent-child relations changed")
@@ -254,14 +351,16 @@ def _run_one(ctx, case, rec):
         if st.orthogonality_center_id != up[0]:
             probs.append(f"step {step}: recorded centre {st.orthogonality_center_id} != first node of the sweep {up[0]}")
         else:
-            probs += [f"step {step}: " + p for p in canonical_problems(st, up[0])]
+            probs += [f"step {step}: " + p for p in canonical_problems(st, up[0], tol)]
         v = dense.ttns_vector(st, order)
         nrm0 = np.linalg.norm(v_prev)
-        if abs(np.linalg.norm(v) - nrm0) > TOL * max(1.0, nrm0):
-            probs.append(f"step {step}: norm drift {abs(np.linalg.norm(v) - nrm0):.2e}")
+        # tolerances relative to the data: |psi| for the norm, |H| |psi|^2 for the energy
+        if abs(np.linalg.norm(v) - nrm0) > tol * nrm0:
+            probs.append(f"step {step}: norm drift {abs(np.linalg.norm(v) - nrm0):.2e} (norm {nrm0:.3g})")
         e = algos.expval_dense(v, Hm)
-        if abs(e - e_prev) > TOL * max(1.0, abs(e_prev), np.linalg.norm(Hm) * nrm0 ** 2):
-            probs.append(f"step {step}: energy drift {abs(e - e_prev):.2e}")
+        if abs(e - e_prev) > tol * np.linalg.norm(Hm) * nrm0 ** 2:
+            probs.append(f"step {step}: energy drift {abs(e - e_prev):.2e} (|H| |psi|^2 = "
+                         f"{np.linalg.norm(Hm) * nrm0 ** 2:.3g})")
         v_prev, e_prev = v, e
         if rec.events:
             last_targets.append(rec.events[-1][1][0])
@@ -269,13 +368,13 @@ def _run_one(ctx, case, rec):
     # reversibility (second order, generic full-rank states only: the flows are then well-defined)
     if not probs and variant == "tdvp2" and case.get("fullrank"):
         try:
-            back = algos.make_algo(variant, algo.state, Hneg, dt, dt, [])
+            back = c05.make_algo(case, variant, algo.state, Hneg, dt, dt)
             for _ in range(case["steps"]):
                 back.run_one_time_step()
             vb = dense.ttns_vector(back.state, order)
-            err = np.linalg.norm(vb - v0) / max(1.0, np.linalg.norm(v0))
+            err = np.linalg.norm(vb - v0) / np.linalg.norm(v0)
             ctx.tally("reversibility_checked", True)
-            if err > 1e-7:
+            if err > 1e-7 * tf:
                 probs.append(f"a step with -H does not undo a step with H (rel. err {err:.2e})")
         except Exception as e:          # noqa: BLE001
             probs.append(f"reverse step raised {type(e).__name__}: {str(e)[:120]}")
@@ -293,7 +392,8 @@ def _run_one(ctx, case, rec):
 
 
 def _saturated(ctx, case):
-    """Two nodes whose bond equals both physical dimensions: one step = exp(-iH dt) psi."""
+    """Two nodes whose bond equals both physical dimensions: `steps` steps = exp(-iH steps*dt) psi.
+    Audit keys: sscale, hscale, dtype, cfg, steps, reset_after, names, pregauge, readonly, ttno."""
     from pytreenet.ttns.ttns import TreeTensorNetworkState
     rng = random.Random(case["seed"])
     nprng = np.random.default_rng(case["seed"])
@@ -302,33 +402,62 @@ def _saturated(ctx, case):
     bond = {(0, 1): d}
     open_dims = {0: [d], 1: [d]}
     names = {0: "a", 1: "b"} if case["rootfirst"] else {0: "b", 1: "a"}
-    ttns, canon, att, nm = gen.build_network(TreeTensorNetworkState, par, bond, open_dims, rng, nprng, names=names)
+    if case.get("names"):
+        nm = c05.NAME_SETS[case["names"]]
+        names = {0: nm[0], 1: nm[1]} if case["rootfirst"] else {0: nm[1], 1: nm[0]}
+    real = case.get("dtype") in ("real", "int", "single")
+    realH = case.get("dtype") in ("int", "single")      # dtype "real": real state, complex Hamiltonian
+    ttns, canon, att, nm = gen.build_network(TreeTensorNetworkState, par, bond, open_dims, rng, nprng, names=names,
+                                             complex_=not real)
     phys = {0: d, 1: d}
-    terms = [{0: gen.rand_hermitian(nprng, d), 1: gen.rand_hermitian(nprng, d)},
-             {rng.randrange(2): gen.rand_hermitian(nprng, d)}]
-    H, Hm = algos.ttno_from_terms(par, phys, names, terms, rng, nprng)
+    hs = case.get("hscale") or 1.0
+    if case.get("ttno") == "generic":
+        H, Hm = c05.generic_ttno(rng, nprng, par, phys, names, True, real=realH, scale=hs)
+    else:
+        terms = [{0: gen.rand_hermitian(nprng, d) * hs, 1: gen.rand_hermitian(nprng, d)},
+                 {rng.randrange(2): gen.rand_hermitian(nprng, d) * hs}]
+        if realH:
+            terms = [{k: np.real(o) for k, o in t.items()} for t in terms]
+        H, Hm = algos.ttno_from_terms(par, phys, names, terms, rng, nprng)
+        if realH:
+            for nid in list(H.nodes):
+                H.replace_tensor(nid, np.real(H.tensors[nid]))
+    tf = 1.0
+    if any(case.get(k) for k in ("dtype", "sscale", "readonly", "pregauge")):
+        Hm, tf = c05.specialise(dict(case, gauge_at=case.get("gauge_at") or "random"), rng, ttns, H, Hm)
     order = sorted(ttns.nodes)
-    v0 = dense.ttns_vector(ttns, order)
-    dt = 0.1
+    v0 = dense.ttns_vector(ttns, order).astype(complex)
+    dt = 0.1 / hs                           # |H| dt stays O(1): magnitude of H and step size are varied together
     variant = case["variant"]
-    ctx.count(("sat", variant, case["seed"]), nontrivial=True)
+    steps = case.get("steps", 1)
+    ctx.count(("sat", variant, case["seed"], case.get("fam")), nontrivial=True)
     ctx.tally("variant", variant + "-saturated")
+    if case.get("fam"):
+        ctx.tally("saturated_audit", next(f"{k}={case[k]}" for k in ("sscale", "hscale", "dtype", "cfg", "steps", "names",
+                                                                  "pregauge", "readonly", "ttno") if case.get(k)))
     try:
-        algo = algos.make_algo(variant, ttns, H, dt, dt, [])
+        algo = c05.make_algo(case, variant, ttns, H, dt, dt)
         if case.get("retime"):
             # "for all step sizes": the step size in force is the one set through the public setter
             algo.set_num_time_steps_constant_final_time(case["retime"])
             dt = algo.time_step_size
-        algo.run_one_time_step()
+        done = 0
+        for step in range(steps):
+            if case.get("reset_after") == step:
+                algo.reset_to_initial_state()
+                done = 0
+            algo.run_one_time_step()
+            done += 1
         v1 = dense.ttns_vector(algo.state, order)
     except Exception as e:              # noqa: BLE001
         ctx.oracle_fail(case, f"{variant} saturated two-node: raised {type(e).__name__}: {str(e)[:200]}")
         return
     w, U = np.linalg.eigh(Hm)
-    ref = (U * np.exp(-1j * w * dt)) @ (U.conj().T @ v0)
-    err = np.linalg.norm(v1 - ref) / max(1.0, np.linalg.norm(ref))
-    if err > 1e-9:
-        ctx.oracle_fail(case, f"{variant} saturated two-node step differs from exp(-iH dt) psi (rel. err {err:.2e})")
+    ref = (U * np.exp(-1j * w * dt * done)) @ (U.conj().T @ v0)
+    err = np.linalg.norm(v1 - ref) / np.linalg.norm(ref)
+    if err > 1e-9 * tf:
+        ctx.oracle_fail(case, f"{variant} saturated two-node: {done} step(s) differ from exp(-iH t) psi (rel. err "
+                              f"{err:.2e}, |psi| = {np.linalg.norm(ref):.3g})")
 
 
 def shrink(case):
